@@ -22,7 +22,7 @@ from ..seq import Layouts, UNKNOWN, show
 COV = "inference/gp/covariance.py"
 MEAN = "inference/gp/mean.py"
 FLOORS = {"changepoint-instance": 4, "difference-before-square": 1, "float-arithmetic": 2, "builder-vs-pairwise": 4, "value-sibling": 4, "gradient-is-derivative": 9, "changepoint-siblings": 4,
-          "composition-order": 4, "mean-sibling": 3, "mean-gradient": 3, "composite-structure": 3,
+          "composition-order": 4, "mean-sibling": 3, "mean-gradient": 3, "composite-structure": 3, "pairwise-axes": 5,
           "changepoint-shared-inplace": 3, "arguments-not-mutated": 60, "overflow-safe": 8}
 
 SCALARS = {"theta[0]", "theta[1]", "theta[1:]", "theta[2:]", "theta"}
@@ -195,6 +195,7 @@ def run(prog, tier):
 
     # ---------------------------------------------------------------- composites
     obs.extend(_composite(prog))
+    obs.extend(_pairwise_axes(prog))
 
     # ---------------------------------------------------------------- mean functions
     obs.extend(_means(prog))
@@ -645,6 +646,107 @@ def _overflow_safe(prog):
     return out
 
 
+def _slices_contiguous_by_induction(prog, sb, ln):
+    """slice_builder by induction over its loop, whatever locals carry the running offset.  Invariant: every loop-carried local, and
+    `<list>[-1].stop`, equals PREV = the stop of the slice appended last.  Base: the list starts as [slice(0, lengths[0])] and every
+    carried local starts as lengths[0].  Step (one generic iteration with element length LEN): exactly one slice is appended, it is
+    slice(PREV, PREV + LEN), and every carried local ends as PREV + LEN."""
+    from ..symx import Expander, TupleV, ListV
+    body = [s_ for s_ in sb.body if not (isinstance(s_, ast.Expr) and isinstance(s_.value, ast.Constant))]
+    loops = [s_ for s_ in body if isinstance(s_, ast.For)]
+    rets = [s_ for s_ in body if isinstance(s_, ast.Return)]
+    if len(loops) != 1 or len(rets) != 1 or not isinstance(rets[0].value, ast.Name) or loops[0].orelse:
+        return False
+    lp, lst = loops[0], rets[0].value.id
+    if not (isinstance(lp.target, ast.Name) and U(lp.iter) == f"{ln}[1:]"):
+        return False
+    pre = body[:body.index(lp)]
+    if body[body.index(lp) + 1:] != rets:
+        return False
+    anf.reset()
+    ex = Expander(prog, prog.module(COV), None)
+
+    def hook(e, node, env):
+        if U(node.func) == "slice" and len(node.args) == 2:
+            return TupleV([e.need_r(e.eval(node.args[0], env)), e.need_r(e.eval(node.args[1], env))])
+        return NotImplemented
+    ex.call_hook = hook
+    FIRST = R.sym("FIRST")
+    env = {f"{ln}[0]": FIRST}
+    try:
+        ex.exec_block(pre, env)
+        start = env.get(lst)
+        if not (isinstance(start, ListV) and len(start.items) == 1 and isinstance(start.items[0], TupleV)
+                and start.items[0].items[0].eq(R.const(0)) and start.items[0].items[1].eq(FIRST)):
+            return False
+        assigned_in_loop = {n.id for b_ in lp.body for n in ast.walk(b_) if isinstance(n, ast.Name) and isinstance(n.ctx, ast.Store)}
+        carried = [v for v in assigned_in_loop if v in env]
+        if any(not (isinstance(env[v], R) and env[v].eq(FIRST)) for v in carried):
+            return False
+        PREV, LEN = R.sym("PREV"), R.sym("LEN")
+        e2 = {v: PREV for v in carried}
+        e2[f"{lst}[-1].stop"] = PREV
+        e2[lp.target.id] = LEN
+        e2[lst] = ListV([])
+        # names defined before the loop and not changed in it keep their value only if they do not depend on the list
+        for k_, v_ in env.items():
+            if k_ not in e2 and isinstance(v_, R) and k_ != f"{ln}[0]":
+                e2[k_] = v_
+        ex2 = Expander(prog, prog.module(COV), None)
+        ex2.call_hook = hook
+        ex2.exec_block(lp.body, e2)
+        out_ = e2.get(lst)
+        if not (isinstance(out_, ListV) and len(out_.items) == 1 and isinstance(out_.items[0], TupleV)):
+            return False
+        a_, b_ = out_.items[0].items
+        if not (a_.eq(PREV) and b_.eq(PREV + LEN)):
+            return False
+        return all(isinstance(e2.get(v), R) and e2[v].eq(PREV + LEN) for v in carried)
+    except Unsupported:
+        return False
+
+
+def _pairwise_axes(prog):
+    """K = k(u, v) has one row per point of u and one column per point of v: in the returned term (temporaries inlined) every factor
+    broadcast down the rows, X[:, None(, :)], is computed from u alone and every factor broadcast along the columns, X[None, :(, :)],
+    from v alone, and the term depends on both point sets."""
+    out = []
+    for kc in prog.subclasses("CovarianceFunction"):
+        fn = kc.methods.get("__call__")
+        if fn is None or len(fn.args.args) < 4:
+            continue
+        u, v = fn.args.args[1].arg, fn.args.args[2].arg
+        rz = Resolver(fn, prog, kc.module, kc)
+        terms = rz.return_terms()
+        # accumulated results (kernel_coeffs[-1] *= w1 ...) are not in the return term: look at every right-hand side too
+        for st in ast.walk(fn):
+            if isinstance(st, (ast.Assign, ast.AugAssign)):
+                terms.append(rz.term(st.value, st))
+        why = []
+        names = set()
+        for t in terms:
+            names |= {n.id for n in ast.walk(t) if isinstance(n, ast.Name)}
+            for n in ast.walk(t):
+                if isinstance(n, ast.Subscript) and isinstance(n.slice, ast.Tuple) and len(n.slice.elts) in (2, 3):
+                    e = n.slice.elts
+                    kind = None
+                    if isinstance(e[0], ast.Slice) and isinstance(e[1], ast.Constant) and e[1].value is None:
+                        kind = "rows"
+                    elif isinstance(e[0], ast.Constant) and e[0].value is None and isinstance(e[1], ast.Slice):
+                        kind = "cols"
+                    if kind is None:
+                        continue
+                    inner = {x.id for x in ast.walk(n.value) if isinstance(x, ast.Name)}
+                    if kind == "rows" and v in inner and u not in inner:
+                        why.append(f"`{U(n)[:70]}` is broadcast down the rows (one entry per point of {u}) but is computed from {v}")
+                    if kind == "cols" and u in inner and v not in inner:
+                        why.append(f"`{U(n)[:70]}` is broadcast along the columns (one entry per point of {v}) but is computed from {u}")
+        if not ({u, v} <= names):
+            why.append(f"the result does not depend on both point sets (uses {sorted(names & {u, v})})")
+        out.append(struct_ob("pairwise-axes", qual(kc, fn), not why, "; ".join(sorted(set(why))[:2]), COV, fn.lineno, tier="F"))
+    return out
+
+
 def _composite(prog):
     out = []
     cc = prog.cls("CompositeCovariance")
@@ -752,29 +854,8 @@ def _composite(prog):
     lay = L.layout_of(rets[0].value, rets[0]) if len(rets) == 1 else None
     name = U(rets[0].value) if len(rets) == 1 else "?"
     ok = lay in ((("item", f"slice(0, {ln}[0])"), ("each", ("iter", f"{ln}[1:]"), f"slice({name}[-1].stop, {name}[-1].stop + va0)")),)
-    if not ok and lay is not None and lay is not UNKNOWN and len(lay) == 2 and lay[0] == ("item", f"slice(0, {ln}[0])") \
-            and lay[1][0] == "each" and lay[1][1] == ("iter", f"{ln}[1:]"):
-        # running-offset form:  a = lengths[0];  for L in lengths[1:]: append(slice(a, a + L)); a = a + L
-        bb = pmatch(ast.parse(lay[1][2], mode="eval").body, "slice(_a, _a + va0)")
-        loops_ = [l_ for l_ in sb.body if isinstance(l_, ast.For)]
-        if bb is not None and len(loops_) == 1 and isinstance(ast.parse(bb["_a"], mode="eval").body, ast.Name):
-            a_ = bb["_a"]
-            lv_ = U(loops_[0].target)
-            inits = [s_ for s_ in sb.body if isinstance(s_, ast.Assign) and U(s_.targets[0]) == a_]
-            app_pos = [k_ for k_, s_ in enumerate(loops_[0].body) if isinstance(s_, ast.Expr) and isinstance(s_.value, ast.Call)
-                       and isinstance(s_.value.func, ast.Attribute) and s_.value.func.attr == "append"]
-            rz_sb = Resolver(sb)
-            upd = [(k_, s_) for k_, s_ in enumerate(loops_[0].body) if isinstance(s_, (ast.Assign, ast.AugAssign))
-                   and U(s_.targets[0] if isinstance(s_, ast.Assign) else s_.target) == a_]
-            ok_upd = False
-            if len(upd) == 1 and len(app_pos) == 1 and upd[0][0] > app_pos[0]:
-                u_ = upd[0][1]
-                if isinstance(u_, ast.AugAssign):
-                    ok_upd = isinstance(u_.op, ast.Add) and U(u_.value) == lv_
-                else:
-                    t_ = rz_sb.term(u_.value, u_, keep=(a_,))
-                    ok_upd = pmatch(t_, f"{a_} + {lv_}") is not None
-            ok = len(inits) == 1 and pmatch(inits[0].value, f"{ln}[0]") is not None and ok_upd
+    if not ok:
+        ok = _slices_contiguous_by_induction(prog, sb, ln)
     out.append(struct_ob("composition-order", "inference.gp.covariance.slice_builder", ok,
                          f"slices must be contiguous: start_(k+1) = stop_k, length = the component's parameter count: {show(lay)}", COV, sb.lineno))
     # change-point layout: kernels first, then (location, width) pairs; bounds interleaved the same way
